@@ -36,6 +36,23 @@ def generate(rng, tier):
             cs += hash_case(rng, p, s, "boundary-pin")
     for s in seeds:
         cs += hash_case(rng, 1023456789, s, "boundary-seed")
+    # a PIN that has no hash (< 1000) verifies against NOTHING: all-zero, all-ones, the hash of a neighbouring valid PIN, of the
+    # zero-padded PIN, random
+    for p in [0, 1, 9, 10, 99, 100, 999, 123, 7]:
+        for sd in (0, 1, rng.getrandbits(32)):
+            ss, c2 = rbytes(rng, 16), rbytes(rng, 16)
+            for hh in [bytes(20), b"\xff" * 20, pyref.pin_hash(1000, sd, ss, c2), pyref.pin_hash(p + 1000, sd, ss, c2), pyref.pin_hash(p * 10000 + 1000, sd, ss, c2),
+                       pyref.sha1(c2 + pyref.sha1(ss)), pyref.sha1(b""), rbytes(rng, 20)]:
+                cs.append(Case("pin.verify %d %d %s %s %s" % (p, sd, ss.hex(), c2.hex(), hh.hex()), "invalid-pin-verifies-against-nothing", "0 ~0"))
+    # seeds at the factorial boundaries of the layout's mixed-radix decomposition: multiples of k! for every k <= 10, and neighbours
+    f = 1
+    for k in range(1, 11):
+        f *= k
+        for m in sorted(set([1, 2, 3, 7, 9, 10, 11, rng.randint(1, 4294967295 // f), 4294967295 // f])):
+            for d in (0, -1, 1):
+                sd = m * f + d
+                if 0 <= sd < (1 << 32):
+                    cs += hash_case(rng, 1023456789, sd, "seed-multiple-of-%d!" % k)
     # seed only matters mod 10!
     for _ in range(20):
         s = rng.randrange(F10); ss, c2 = rbytes(rng, 16), rbytes(rng, 16)
